@@ -81,6 +81,11 @@ func (w *iw) Write(buf []byte) (int, error) {
 	w.partial = joined[len(joined)-1] != '\n'
 
 	n, err := w.w.Write(joined)
+	if err == nil && n < len(joined) {
+		// The underlying writer took only part of the output and did not
+		// say why; the caller is told all the same.
+		err = io.ErrShortWrite
+	}
 	if err != nil {
 		return actualWrittenSize(n, len(w.prefix), lines, continued), err
 	}
